@@ -1,0 +1,139 @@
+//go:build verif
+
+// Contracts for the deductive verifier in /verif (govc). This file contains comments
+// only; it is compiled only with the build tag "verif" and then adds nothing but the
+// package clause.
+
+package priority
+
+// Ghost state (changed only by the channel events and the divider-call hook below):
+//   gInfl        items handed out on the output and not yet released (Out events - feedback events)
+//   gInflP[p]    the same per priority
+//   gDivErr      a division returned a non-zero added total different from the dividend
+//   gPset        the configured priorities (keys of Opts.Inputs), gH = Opts.HandlersQuantity
+//   gClosedIn    priorities whose input channel was observed closed
+//   gOutClosed   the output channel was closed
+
+//@ ghost var gInfl int
+//@ ghost var gInflP map[int]int
+//@ ghost var gDivErr bool
+//@ ghost var gPset set
+//@ ghost var gH int
+//@ ghost var gClosedIn set
+//@ ghost var gOutClosed bool
+
+// A release is sent once per delivered item and only for delivered items (DESIGN.md §6.5).
+//@ event recv dsc.feedback (p)
+//@   assume-env [*] release-only-for-delivered-items: gInflP[p] > 0
+//@   effect gInfl := gInfl - 1
+//@   effect gInflP := store(gInflP, p, gInflP[p] - 1)
+
+// C01 / C15 at the moment an item is handed out.
+//@ event send dsc.output (v)
+//@   requires [C01 C15] capacity-never-exceeded: gInfl < dsc.opts.HandlersQuantity
+//@   requires [C15] no-delivery-after-a-divider-fault: !gDivErr
+//@   requires [C07 C15] nothing-after-close: !gOutClosed
+//@   effect gInfl := gInfl + 1
+//@   effect gInflP := store(gInflP, v.Priority, gInflP[v.Priority] + 1)
+
+//@ event recv dsc.inputs[$p].Channel (item, opened)
+//@   effect gClosedIn := ite(opened, gClosedIn, store(gClosedIn, p, true))
+
+//@ event recv dsc.interrupter.C ()
+
+//@ event send dsc.err (e)
+//@   requires [C15] reported-error-is-the-divider-fault: gDivErr ==> e == ErrDividerBad
+//@   requires [C07 C15] only-real-errors-are-sent: e != nil
+
+//@ event close dsc.output
+//@   requires [C07 C15] closes-only-when-nothing-is-in-flight: gInfl == 0
+//@   requires [C07] closes-only-when-all-inputs-are-closed-and-empty: gDivErr || (forall k :: in(gPset, k) ==> in(gClosedIn, k))
+//@   effect gOutClosed := true
+//@ event close dsc.err
+//@   requires [C07 C15] closes-only-when-nothing-is-in-flight: gInfl == 0
+//@   requires [C07] closes-only-when-all-inputs-are-closed-and-empty: gDivErr || (forall k :: in(gPset, k) ==> in(gClosedIn, k))
+//@ event close dsc.feedback
+
+// C15: the calling convention of the divider is an obligation at every call through a
+// Divider value; the divider itself is untrusted (arbitrary effect on the map it is given).
+// gDivErr is defined here, by the fault as the property states it.
+//@ functype Divider(priorities, dividend, distribution)
+//@   requires [C15] priorities-sorted-and-distinct: strictlyDesc(priorities)
+//@   requires [C15] priorities-are-configured: allIn(priorities, gPset)
+//@   requires [C15] dividend-at-most-handlers-quantity: dividend <= gH
+//@   requires [C15] distribution-not-nil: distribution != nil
+//@   modifies content(distribution), gDivErr
+//@   ensures [C15] gDivErr <==> (old(gDivErr) || (msum(distribution) != old(msum(distribution)) && msum(distribution) - old(msum(distribution)) != dividend))
+
+// Well-formedness of the discipline state.
+//@ pred WF(dsc)
+//@   [*] dsc != nil && dsc.actual != nil && dsc.tactic != nil && dsc.strategic != nil && dsc.inputs != nil
+//@   [*] dsc.actual != dsc.tactic && dsc.actual != dsc.strategic && dsc.tactic != dsc.strategic
+//@   [*] dsc.opts.Divider != nil && dsc.opts.HandlersQuantity == gH && gH >= 1
+//@   [*] strictlyDesc(dsc.priorities) && allIn(dsc.priorities, gPset)
+//@   [*] forall k :: in(gPset, k) ==> dom(dsc.inputs, k)
+//@   [*] dsc.priorities.arr != 0 && (dsc.uncrowded.arr == 0 || dsc.uncrowded.arr != dsc.priorities.arr) && (dsc.useful.arr == 0 || dsc.useful.arr != dsc.priorities.arr)
+//@   [*] allocated(dsc.priorities.arr) && allocated(dsc.actual) && allocated(dsc.tactic) && allocated(dsc.strategic)
+//@   [* C01] forall k :: dsc.actual[k] == gInflP[k]
+//@   [* C01] msum(dsc.actual) == gInfl && gInfl <= gH
+
+// The round invariant: what is in flight plus what is planned never exceeds the capacity.
+//@ pred RINV(dsc)
+//@   [* C01] msum(dsc.actual) + msum(dsc.tactic) <= gH
+
+//@ func calcDistributionQuantity
+//@   requires [*] distribution != nil ==> msum(distribution) < two64
+//@   ensures [* C01 C15] distribution != nil ==> result == msum(distribution)
+//@   loop 0
+//@     invariant [*] quantity == msumR(distribution, $visited)
+
+//@ func safeCalcDistributionQuantity
+//@   ensures [* C01 C15] (distribution != nil && result1 == nil) ==> result0 == msum(distribution)
+//@   ensures [* C01 C15] (distribution != nil && result1 != nil) ==> msum(distribution) >= two64
+//@   ensures [*] result1 != nil ==> result0 == 0
+//@   loop 0
+//@     invariant [*] quantity == msumR(distribution, $visited)
+
+//@ func safeDivide
+//@   requires [*] divider != nil
+//@   requires [C15] strictlyDesc(priorities)
+//@   requires [C15] allIn(priorities, gPset)
+//@   requires [C15] dividend <= gH
+//@   requires [* C15] distribution != nil
+//@   requires [* C01 C15] msum(distribution) == 0
+//@   modifies content(distribution), gDivErr
+//@   ensures [* C01] honest-or-error: result == nil ==> (msum(distribution) == 0 || msum(distribution) == dividend)
+//@   ensures [C15] fault-is-reported: (gDivErr && !old(gDivErr)) ==> result == ErrDividerBad
+//@   ensures [C15] old(gDivErr) ==> gDivErr
+
+//@ func (*Discipline).calcVacants
+//@   requires [*] WF(dsc)
+//@   ensures [* C01] result == gH - msum(dsc.actual)
+
+//@ func (*Discipline).increaseActual
+//@   requires [*] dsc != nil && dsc.actual != nil
+//@   requires [*] dsc.actual[priority] < two64 - 1
+//@   modifies content(dsc.actual)
+//@   ensures [* C01] dsc.actual[priority] == old(dsc.actual[priority]) + 1 && msum(dsc.actual) == old(msum(dsc.actual)) + 1
+//@   ensures [* C01] forall k :: k != priority ==> dsc.actual[k] == old(dsc.actual[k])
+
+//@ func (*Discipline).decreaseActual
+//@   requires [*] dsc != nil && dsc.actual != nil
+//@   requires [* C01] dsc.actual[priority] >= 1
+//@   modifies content(dsc.actual)
+//@   ensures [* C01] dsc.actual[priority] == old(dsc.actual[priority]) - 1 && msum(dsc.actual) == old(msum(dsc.actual)) - 1
+//@   ensures [* C01] forall k :: k != priority ==> dsc.actual[k] == old(dsc.actual[k])
+
+//@ func (*Discipline).decreaseTactic
+//@   requires [*] dsc != nil && dsc.tactic != nil
+//@   requires [* C01] dsc.tactic[priority] >= 1
+//@   modifies content(dsc.tactic)
+//@   ensures [* C01] dsc.tactic[priority] == old(dsc.tactic[priority]) - 1 && msum(dsc.tactic) == old(msum(dsc.tactic)) - 1
+//@   ensures [* C01] forall k :: k != priority ==> dsc.tactic[k] == old(dsc.tactic[k])
+
+//@ func (*Discipline).resetTactic
+//@   requires [*] dsc != nil && dsc.tactic != nil
+//@   modifies content(dsc.tactic)
+//@   ensures [* C01 C15] msum(dsc.tactic) == 0 && (forall k :: dsc.tactic[k] == 0)
+//@   loop 0
+//@     invariant [*] forall k :: in($visited, k) ==> dsc.tactic[k] == 0
